@@ -156,8 +156,9 @@ ConnFrom(c0, m, host) ==
      ELSE IF NameConfBad(c) THEN Out("einval", c)
      ELSE Out("ok", c)
 ConnOutcome(m, host) == ConnFrom(InitConf("conn"), m, host)
-\* the late map is applied to the server socket after its creation (no finalize there)
-ServerConfAfter(sout, late) == Apply(sout.conf, late)
+\* a late map is written to the server socket after its creation: the tls.* attributes are writable only at creation,
+\* so every such write is refused (EACCES) and changes nothing  (before /repo a330e75 the code accepted them: Apply(sout.conf, late))
+ServerConfAfter(sout, late) == sout.conf
 AcceptOutcome(sconf, m) == ConnFrom(Inherit(sconf), m, "ip")
 
 -----------------------------------------------------------------------------
@@ -291,7 +292,7 @@ ConfigValidWellDefined(ev) ==
   /\ (ev.co.st = "ok" => WellDefined(ev.co.conf) /\ (ev.co.conf.vpn => ev.co.conf.auth /\ ev.co.conf.names # "NULL"))
   /\ (ev.ao.st = "ok" => WellDefined(ev.ao.conf) /\ (ev.ao.conf.vpn => ev.ao.conf.auth /\ ev.ao.conf.names # "NULL"))
 \* inheritance and override: a value written in the accept map wins, otherwise the server socket's value
-\* (server map, then late set), otherwise the default
+\* (server map; writes after creation are refused), otherwise the default
 BoolAttrs == {"auth", "time", "crl", "vpn", "client"}
 Get(c, a) == CASE a = "auth" -> c.auth [] a = "time" -> c.time [] a = "crl" -> c.crl [] a = "vpn" -> c.vpn
                [] a = "client" -> c.client
@@ -304,7 +305,7 @@ Resolved(vals, dflt) ==      \* last written value in a sequence of map values
 InheritOverrideLaw(cell, ev) ==
   /\ (ev.ao.st # "none" =>
         \A a \in BoolAttrs :
-           Get(ev.ao.conf, a) = Resolved(<<MapGet(cell.S, a), MapGet(cell.L, a), MapGet(cell.A, a)>>, DefaultOf(a, "server")))
+           Get(ev.ao.conf, a) = Resolved(<<MapGet(cell.S, a), MapGet(cell.A, a)>>, DefaultOf(a, "server")))
   /\ (ev.co.st # "none" =>
         \A a \in BoolAttrs : Get(ev.co.conf, a) = Resolved(<<MapGet(cell.C, a)>>, DefaultOf(a, "conn")))
 \* nothing is demanded of a side that does not authenticate
